@@ -63,11 +63,21 @@ def main(argv):
         from . import replay as _rp
         from .props import roles
         import habutax.enum as E
+        import enum as _enum
+        import re as _re
+
         def conv(d):
             out = {}
             for k, v in d.items():
+                m = _re.match(r'^<(.+)\.(\w+): ', str(v))
                 if 'Taxpayer or Spouse' in str(v):
                     out[k] = E.taxpayer_or_spouse.taxpayer if '.taxpayer' in str(v) else E.taxpayer_or_spouse.spouse
+                elif m:
+                    # repr of a member of one of habutax.enum's enumerations: found by class display name and member name
+                    hit = [c[m.group(2)] for c in vars(E).values() if isinstance(c, type) and issubclass(c, _enum.Enum) and c.__name__ == m.group(1) and m.group(2) in c.__members__]
+                    if spec.get('year') == 2021:
+                        hit = [h for h in hit if h is getattr(E, 'filing_status_2021', None).__members__.get(m.group(2))] or hit
+                    out[k] = hit[0]
                 else:
                     out[k] = ast.literal_eval(v) if isinstance(v, str) else v
             return out
